@@ -41,14 +41,15 @@ def _reg():
 # ---------------------------------------------------------------------------------------- strategy
 
 def _addr():
-    return st.one_of(
-        st.just(["none"]), st.just(["none"]), st.just(["none"]),
-        st.tuples(st.just("abs"), st.integers(0, 40)).map(list),
-        st.tuples(st.just("frac"), st.integers(0, 16)).map(list),
-        st.tuples(st.sampled_from(["start", "end"]), st.integers(0, 7), st.integers(-2, 2)).map(list),
-        st.tuples(st.sampled_from(["start", "end"]), st.integers(0, 7), st.sampled_from([-8, -4, -1, 0, 0, 1, 4])).map(list),
-        st.tuples(st.just("slot"), st.integers(0, 9)).map(list),
-        st.tuples(st.just("bad"), st.sampled_from(["neg", "str", "float", "huge"])).map(list),
+    from vlib.gens import weighted
+    return weighted(
+        (3, st.just(["none"])),
+        (1, st.tuples(st.just("abs"), st.integers(0, 40)).map(list)),
+        (1, st.tuples(st.just("frac"), st.integers(0, 16)).map(list)),
+        (1, st.tuples(st.sampled_from(["start", "end"]), st.integers(0, 7), st.integers(-2, 2)).map(list)),
+        (1, st.tuples(st.sampled_from(["start", "end"]), st.integers(0, 7), st.sampled_from([-8, -4, -1, 0, 0, 1, 4])).map(list)),
+        (1, st.tuples(st.just("slot"), st.integers(0, 9)).map(list)),
+        (1, st.tuples(st.just("bad"), st.sampled_from(["neg", "str", "float", "huge"])).map(list)),
     )
 
 
@@ -59,8 +60,8 @@ def _size():
 
 
 def _align():
-    return st.one_of(st.none(), st.none(), st.none(), st.integers(0, 4), st.integers(0, 2),
-                     st.sampled_from([-1, "x", 5]))
+    from vlib.gens import weighted
+    return weighted((3, st.none()), (1, st.integers(0, 4)), (1, st.integers(0, 2)), (1, st.sampled_from([-1, "x", 5])))
 
 
 def _op(nmaps):
@@ -73,15 +74,15 @@ def _op(nmaps):
                                   st.tuples(st.sampled_from(["start", "end"]), st.integers(0, 7),
                                             st.sampled_from([-4, -2, -1, 0, 1])).map(list)),
                         st.sampled_from([None, None, 0, 1])).map(list)
-    ops = [
-        res, res, res, scatter, scatter, scatter,
-        st.tuples(st.just("res"), mi, st.integers(1, 4), st.just(["none"]), st.none()).map(list),
-        win, win, win,
-        st.tuples(st.just("align"), mi, st.one_of(st.integers(0, 5), st.integers(0, 5), st.sampled_from([-1, "x"]))).map(list),
-        st.tuples(st.sampled_from(["freeze", "res_again", "badobj"]), mi,
-                  st.sampled_from(["freeze", "periph", "bridge", "res", "win", 0, 1, 2])).map(list),
-    ]
-    return st.one_of(*ops)
+    from vlib.gens import weighted
+    return weighted(
+        (3, res), (3, scatter),
+        (1, st.tuples(st.just("res"), mi, st.integers(1, 4), st.just(["none"]), st.none()).map(list)),
+        (3, win),
+        (1, st.tuples(st.just("align"), mi, st.sampled_from([0, 1, 2, 3, 4, 5, 0, 1, 2, 3, 4, 5, -1, "x"])).map(list)),
+        (1, st.tuples(st.sampled_from(["freeze", "res_again", "badobj"]), mi,
+                      st.sampled_from(["freeze", "periph", "bridge", "res", "win", 0, 1, 2])).map(list)),
+    )
 
 
 @st.composite
